@@ -887,3 +887,40 @@ func (c *Ctx) VerdictSweep(spec string, skip map[string]string) int {
 	}
 	return n
 }
+
+// NeverAfter (K2): no CFG path leads from an instruction matching `first` to one
+// matching `then` (e.g. dependants are never rolled back after the transaction itself).
+func (c *Ctx) NeverAfter(fn *ssa.Function, first, then Target, why string) {
+	if fn == nil {
+		return
+	}
+	fnName := load.QualName(fn)
+	what := then.Name + " never after " + first.Name
+	fins, tins := first.instrs(fn), then.instrs(fn)
+	if len(fins) == 0 || len(tins) == 0 {
+		c.Fail("anchor", fnName, what, "-", fmt.Sprintf("matched %d / %d instruction(s)", len(fins), len(tins)))
+		return
+	}
+	c.Sites += len(fins) + len(tins)
+	cut := InfeasibleEdges(fn)
+	var bad []string
+	for _, f := range fins {
+		var starts []*ssa.BasicBlock
+		for i, s := range f.Block().Succs {
+			if !cut[Edge{f.Block(), i}] {
+				starts = append(starts, s)
+			}
+		}
+		reached := ReachFrom(starts, cut)
+		for _, t := range tins {
+			if (t.Block() == f.Block() && instrIndex(t) > instrIndex(f)) || reached[t.Block()] {
+				bad = append(bad, c.At(t))
+			}
+		}
+	}
+	if len(bad) > 0 {
+		c.Fail("K2", fnName, what, bad[0], "reachable after "+first.Name+": "+strings.Join(uniq(bad), ", ")+" ("+why+")")
+	} else {
+		c.OK("K2", fnName, what, c.At(tins[0]), why)
+	}
+}
